@@ -14,6 +14,14 @@ use std::future::Future;
 use std::marker::PhantomData;
 use std::task::{Context, Poll};
 
+/// what is left of a shared channel once every handle and future is gone: closed, no value, no waiters
+fn dead_snapshot() -> Snapshot {
+    let mut sn = Snapshot::default();
+    sn.scalars = vec![1, NO_VALUE, 0];
+    sn.queues = vec![vec![]];
+    sn
+}
+
 pub trait Flavor: 'static {
     const BROADCAST: bool;
     const SHARED: bool;
@@ -31,6 +39,10 @@ pub trait Flavor: 'static {
     fn node(f: &Self::Fut) -> NodeSnap;
     fn debug(c: &Self::Chan) -> String;
     fn node_debug(f: &Self::Fut) -> String;
+    /// shared flavours: number of owners (handles, futures) of the shared state
+    fn owners(_c: &Self::Chan) -> Option<usize> {
+        None
+    }
     fn senders(_c: &Self::Chan) -> usize {
         1
     }
@@ -158,13 +170,16 @@ impl<M: RawMutex + std::fmt::Debug + 'static> Flavor for SOne<M> {
         c.rx.as_ref().unwrap().receive()
     }
     fn snapshot(c: &Self::Chan) -> Snapshot {
-        c.vref.verif_snapshot(&tag_of)
+        c.vref.verif_snapshot(&tag_of).unwrap_or_else(dead_snapshot)
+    }
+    fn owners(c: &Self::Chan) -> Option<usize> {
+        Some(c.vref.verif_owners())
     }
     fn node(f: &Self::Fut) -> NodeSnap {
         f.verif_node()
     }
     fn debug(c: &Self::Chan) -> String {
-        c.vref.verif_debug()
+        c.vref.verif_debug().unwrap_or_default()
     }
     fn node_debug(f: &Self::Fut) -> String {
         f.verif_node_debug()
@@ -216,13 +231,16 @@ impl<M: RawMutex + std::fmt::Debug + 'static> Flavor for SBc<M> {
         c.rx[0].receive()
     }
     fn snapshot(c: &Self::Chan) -> Snapshot {
-        c.vref.verif_snapshot(&ctag_of)
+        c.vref.verif_snapshot(&ctag_of).unwrap_or_else(dead_snapshot)
+    }
+    fn owners(c: &Self::Chan) -> Option<usize> {
+        Some(c.vref.verif_owners())
     }
     fn node(f: &Self::Fut) -> NodeSnap {
         f.verif_node()
     }
     fn debug(c: &Self::Chan) -> String {
-        c.vref.verif_debug()
+        c.vref.verif_debug().unwrap_or_default()
     }
     fn node_debug(f: &Self::Fut) -> String {
         f.verif_node_debug()
@@ -298,7 +316,11 @@ impl<F: Flavor> Sys<F> {
     }
 
     fn invariants(&mut self, out: &mut StepOut) {
-        let (na, nf) = harness::take_alloc_counts();
+        let (na, mut nf) = harness::take_alloc_counts();
+        if F::owners(&self.chan) == Some(0) {
+            // this step dropped the last owner of the shared state: freeing it is destruction
+            nf = 0;
+        }
         if na + nf > 0 {
             out.p("C18", "alloc-in-call", format!("{} allocations / {} frees inside library calls of this step", na, nf));
         }
